@@ -45,3 +45,28 @@ claim('C10', 'property-based testing with a structural width oracle cross-checke
       'width is not a single value, and accepted results must compile and match like the reference.',
       'width calculus is re-validated against re._parser getwidth() on every case; backreferences inside assertions unspecified',
       'DESIGN.md section 5 C10')
+
+claim('C01', 'property-based round-trip testing of literals (Hypothesis + complete enumeration of short metacharacter strings) and differential testing in every str-accepting position',
+      'Every string of length <= 2/3 over a 36-character metacharacter alphabet and generated Unicode strings must exactly-match themselves and '
+      'none of ~20-60 near-miss texts (edits and "if it were syntax" readings); raw str arguments in every str-accepting position (table '
+      'cross-checked against inspect.signature) are compared with a re.escape reference on targeted texts.',
+      're.escape is the reference spelling; near-miss texts are a sample of "all candidate texts"',
+      'DESIGN.md section 5 C01')
+claim('C04', 'property-based testing with a direct repetition-count/greediness oracle and a differential {n,m} oracle (Hypothesis + complete enumeration of small bounds)',
+      'All bound pairs over {0,1,2,3,4,7}/None x all spellings x greediness are enumerated for 6 rigid operands and checked by counting '
+      'repetitions directly (accepted iff lo <= k <= hi; greedy takes most, lazy fewest); generated operand trees are compared with the '
+      'canonical (?:X){lo,hi} reference in every spelling; invalid bounds must raise the documented exception.',
+      'oracle A trusts only fullmatch/match on k-fold witnesses; oracle B trusts re\'s counted repetition',
+      'DESIGN.md section 5 C04')
+claim('C05', 'property-based metamorphic testing: inserting empty patterns must not change the expression (Hypothesis)',
+      'Empty patterns in every spelling (incl. lazy/named/flagged quantifier, Group, Capture, Concat, Either, positive lookaround of empties, nested) '
+      'are inserted at generated positions of generated trees as concat operand, n-ary operand, enclosing pattern, later alternative or positive '
+      'lookaround assertion; the result must be equivalent to the original, each empty must print as the empty string, negative lookarounds must '
+      'raise EmptyNegativeAssertionException.',
+      'an empty receiver of either() is unspecified and never generated; equivalence judged by re on targeted texts',
+      'DESIGN.md section 5 C05')
+claim('C08', 'property-based testing of group structure against a value-level capture model and a reference regex (Hypothesis)',
+      'Trees biased to nested Capture/Group (named, unnamed, flagged) over literals containing group syntax are compared with the model: number '
+      'of groups, name->index map in opening order, m.groups() on texts, flag scope; failures shrink to minimal nestings.',
+      'value-level reading of "is a group"; duplicate names and non-ASCII names unspecified',
+      'DESIGN.md section 5 C08')
